@@ -117,4 +117,24 @@ def delaysAfter : Nat → Bool → List Nat → List Nat
 
 def backoff (gaps : List Nat) : List Nat := delaysAfter 0 true gaps
 
+/-- kinds of errors `handleError` sees -/
+inductive ErrKind where
+  | damp      -- a NOTIFICATION other than Cease (sent or received)
+  | cease     -- a Cease
+  | io        -- a transport error
+deriving Repr, DecidableEq, Inhabited
+
+/-- a history of errors of every kind, each with the time since the previous event: the startup delay after each
+(0 = no hold-down). Only damping errors touch `startupDelay` and `lastProtoError`; `since` is the time since the last
+damping error (`none` before the first). -/
+def delaysHist : Nat → Option Nat → List (ErrKind × Nat) → List Nat
+  | _, _, [] => []
+  | d, since, (k, g) :: rest =>
+    let since' := since.map (· + g)
+    match k with
+    | .damp => let d' := updateStartupDelay d since'; d' :: delaysHist d' (some 0) rest
+    | _ => 0 :: delaysHist d since' rest
+
+def errHistory (h : List (ErrKind × Nat)) : List Nat := delaysHist 0 none h
+
 end CoreBGP.Model
